@@ -5,100 +5,100 @@ namespace LlgoVerif.Gen.C19
 open LlgoVerif.PyGuard
 
 def progs : List GenProg := [
-  -- program c19s0p22974
+  -- program c19s0p29086
   { main := 14,
     entry := [.pyInitialize, .rtInit, .runtimeInit, .mainInit, .mainMain],
-    calls := [(11, .call (2, 1)), (11, .var (2, 2)), (11, .var (2, 3)), (11, .var (2, 4)), (11, .var (2, 5)), (11, .call (2, 0)), (11, .call (3, 1)), (11, .var (3, 2)), (11, .var (3, 3)), (11, .var (3, 4)), (11, .var (3, 5)), (11, .call (3, 0)), (11, .explicitImport 0), (11, .explicitImport 1), (12, .call (1, 1)), (12, .var (1, 2)), (12, .var (1, 3)), (12, .var (1, 4)), (12, .var (1, 5)), (12, .call (1, 0)), (12, .call (3, 1)), (12, .var (3, 2)), (12, .var (3, 3)), (12, .var (3, 4)), (12, .var (3, 5)), (12, .call (3, 0)), (12, .explicitImport 0), (12, .explicitImport 1), (13, .call (3, 1)), (13, .var (3, 2)), (13, .var (3, 3)), (13, .var (3, 4)), (13, .var (3, 5)), (13, .call (3, 0)), (13, .explicitImport 0), (13, .explicitImport 1), (14, .call (0, 1)), (14, .var (0, 2)), (14, .var (0, 3)), (14, .var (0, 4)), (14, .var (0, 5)), (14, .call (0, 0)), (14, .call (1, 1)), (14, .var (1, 2)), (14, .var (1, 3)), (14, .var (1, 4)), (14, .var (1, 5)), (14, .call (1, 0)), (14, .call (2, 1)), (14, .var (2, 2)), (14, .var (2, 3)), (14, .var (2, 4)), (14, .var (2, 5)), (14, .call (2, 0)), (14, .call (3, 1)), (14, .var (3, 2)), (14, .var (3, 3)), (14, .var (3, 4)), (14, .var (3, 5)), (14, .call (3, 0)), (14, .call (3, 1)), (14, .var (3, 2)), (14, .var (3, 3)), (14, .var (3, 4)), (14, .var (3, 5)), (14, .call (3, 0)), (14, .explicitImport 0), (14, .explicitImport 1)],
+    calls := [(11, .call (2, 0)), (11, .var (2, 2)), (11, .var (2, 3)), (11, .var (2, 4)), (11, .var (2, 5)), (11, .call (2, 1)), (11, .call (3, 0)), (11, .var (3, 2)), (11, .var (3, 3)), (11, .var (3, 4)), (11, .var (3, 5)), (11, .call (3, 1)), (11, .explicitImport 0), (11, .explicitImport 1), (12, .call (1, 0)), (12, .var (1, 2)), (12, .var (1, 3)), (12, .var (1, 4)), (12, .var (1, 5)), (12, .call (1, 1)), (12, .call (3, 0)), (12, .var (3, 2)), (12, .var (3, 3)), (12, .var (3, 4)), (12, .var (3, 5)), (12, .call (3, 1)), (12, .explicitImport 0), (12, .explicitImport 1), (13, .call (3, 0)), (13, .var (3, 2)), (13, .var (3, 3)), (13, .var (3, 4)), (13, .var (3, 5)), (13, .call (3, 1)), (13, .explicitImport 0), (13, .explicitImport 1), (14, .call (0, 0)), (14, .var (0, 2)), (14, .var (0, 3)), (14, .var (0, 4)), (14, .var (0, 5)), (14, .call (0, 1)), (14, .call (1, 0)), (14, .var (1, 2)), (14, .var (1, 3)), (14, .var (1, 4)), (14, .var (1, 5)), (14, .call (1, 1)), (14, .call (2, 0)), (14, .var (2, 2)), (14, .var (2, 3)), (14, .var (2, 4)), (14, .var (2, 5)), (14, .call (2, 1)), (14, .call (3, 0)), (14, .var (3, 2)), (14, .var (3, 3)), (14, .var (3, 4)), (14, .var (3, 5)), (14, .call (3, 1)), (14, .call (3, 0)), (14, .var (3, 2)), (14, .var (3, 3)), (14, .var (3, 4)), (14, .var (3, 5)), (14, .call (3, 1)), (14, .explicitImport 0), (14, .explicitImport 1)],
     facts := [
-      -- c19s0p22974/vio
+      -- c19s0p29086/vio
       { id := 0,
         toks := [.guardTest, .guardStore, .ret],
         inits := [], loadGroups := [],
         initUses := [],
         imp := none, fnUses := [], intrinsics := false },
-      -- c19s0p22974/bh
+      -- c19s0p29086/bh
       { id := 1,
         toks := [.guardTest, .guardStore, .guardedImport 4, .ret],
         inits := [], loadGroups := [],
         initUses := [],
         imp := some 4, fnUses := [], intrinsics := false },
-      -- c19s0p22974/bops
+      -- c19s0p29086/bops
       { id := 2,
         toks := [.guardTest, .guardStore, .guardedImport 5, .ret],
         inits := [], loadGroups := [],
         initUses := [],
         imp := some 5, fnUses := [], intrinsics := false },
-      -- c19s0p22974/bblt
+      -- c19s0p29086/bblt
       { id := 3,
         toks := [.guardTest, .guardStore, .guardedImport 6, .ret],
         inits := [], loadGroups := [],
         initUses := [],
         imp := some 6, fnUses := [], intrinsics := false },
-      -- c19s0p22974/bmath
+      -- c19s0p29086/bmath
       { id := 4,
         toks := [.guardTest, .guardStore, .guardedImport 7, .ret],
         inits := [], loadGroups := [],
         initUses := [],
         imp := some 7, fnUses := [], intrinsics := false },
-      -- c19s0p22974/b0
+      -- c19s0p29086/b0
       { id := 5,
         toks := [.guardTest, .guardStore, .guardedImport 0, .ret],
         inits := [], loadGroups := [],
         initUses := [],
         imp := some 0, fnUses := [], intrinsics := false },
-      -- c19s0p22974/b1
+      -- c19s0p29086/b1
       { id := 6,
         toks := [.guardTest, .guardStore, .guardedImport 1, .ret],
         inits := [], loadGroups := [],
         initUses := [],
         imp := some 1, fnUses := [], intrinsics := false },
-      -- c19s0p22974/b2
+      -- c19s0p29086/b2
       { id := 7,
         toks := [.guardTest, .guardStore, .guardedImport 2, .ret],
         inits := [], loadGroups := [],
         initUses := [],
         imp := some 2, fnUses := [], intrinsics := false },
-      -- c19s0p22974/b3
+      -- c19s0p29086/b3
       { id := 8,
         toks := [.guardTest, .guardStore, .guardedImport 3, .ret],
         inits := [], loadGroups := [],
         initUses := [],
         imp := some 3, fnUses := [], intrinsics := false },
-      -- c19s0p22974/b3x
+      -- c19s0p29086/b3x
       { id := 9,
         toks := [.guardTest, .guardStore, .guardedImport 3, .ret],
         inits := [], loadGroups := [],
         initUses := [],
         imp := some 3, fnUses := [], intrinsics := false },
-      -- c19s0p22974/vdump
+      -- c19s0p29086/vdump
       { id := 10,
         toks := [.guardTest, .guardStore, .callInit 0, .ret],
         inits := [0], loadGroups := [],
         initUses := [],
         imp := none, fnUses := [], intrinsics := false },
-      -- c19s0p22974/u1
+      -- c19s0p29086/u1
       { id := 11,
-        toks := [.guardTest, .guardStore, .callInit 7, .callInit 8, .callInit 1, .callInit 10, .loadSyms 4 [0, 1], .loadSyms 2 [0, 1], .loadSyms 3 [0, 1], .use (.call (2, 1)), .use (.call (3, 1)), .use (.explicitImport 1), .use (.call (4, 1)), .ret],
-        inits := [7, 8, 1, 10], loadGroups := [(4, [0, 1]), (2, [0, 1]), (3, [0, 1])],
-        initUses := [.call (2, 1), .call (3, 1), .explicitImport 1, .call (4, 1)],
-        imp := none, fnUses := [.call (2, 1), .var (2, 2), .call (4, 0), .var (2, 3), .var (2, 4), .var (2, 5), .call (2, 0), .call (3, 1), .var (3, 2), .var (3, 3), .var (3, 4), .var (3, 5), .call (3, 0), .explicitImport 0, .call (4, 1), .explicitImport 1], intrinsics := false },
-      -- c19s0p22974/u2
+        toks := [.guardTest, .guardStore, .callInit 7, .callInit 8, .callInit 1, .callInit 10, .use (.call (2, 0)), .use (.call (3, 0)), .use (.explicitImport 1), .use (.call (4, 0)), .loadSyms 4 [1, 0], .loadSyms 2 [1, 0], .loadSyms 3 [1, 0], .ret],
+        inits := [7, 8, 1, 10], loadGroups := [(4, [1, 0]), (2, [1, 0]), (3, [1, 0])],
+        initUses := [.call (2, 0), .call (3, 0), .explicitImport 1, .call (4, 0)],
+        imp := none, fnUses := [.call (2, 0), .var (2, 2), .call (4, 1), .var (2, 3), .var (2, 4), .var (2, 5), .call (2, 1), .call (3, 0), .var (3, 2), .var (3, 3), .var (3, 4), .var (3, 5), .call (3, 1), .explicitImport 0, .call (4, 0), .explicitImport 1], intrinsics := false },
+      -- c19s0p29086/u2
       { id := 12,
-        toks := [.guardTest, .guardStore, .callInit 6, .callInit 9, .callInit 1, .callInit 10, .loadSyms 4 [0, 1], .loadSyms 1 [0, 1], .loadSyms 3 [0, 1], .use (.call (1, 1)), .use (.call (3, 1)), .ret],
-        inits := [6, 9, 1, 10], loadGroups := [(4, [0, 1]), (1, [0, 1]), (3, [0, 1])],
-        initUses := [.call (1, 1), .call (3, 1)],
-        imp := none, fnUses := [.call (1, 1), .var (1, 2), .call (4, 0), .var (1, 3), .var (1, 4), .var (1, 5), .call (1, 0), .call (3, 1), .var (3, 2), .var (3, 3), .var (3, 4), .var (3, 5), .call (3, 0), .explicitImport 0, .call (4, 1), .explicitImport 1], intrinsics := false },
-      -- c19s0p22974/u3
+        toks := [.guardTest, .guardStore, .callInit 6, .callInit 9, .callInit 1, .callInit 10, .use (.call (1, 0)), .use (.call (3, 0)), .loadSyms 4 [1, 0], .loadSyms 1 [1, 0], .loadSyms 3 [1, 0], .ret],
+        inits := [6, 9, 1, 10], loadGroups := [(4, [1, 0]), (1, [1, 0]), (3, [1, 0])],
+        initUses := [.call (1, 0), .call (3, 0)],
+        imp := none, fnUses := [.call (1, 0), .var (1, 2), .call (4, 1), .var (1, 3), .var (1, 4), .var (1, 5), .call (1, 1), .call (3, 0), .var (3, 2), .var (3, 3), .var (3, 4), .var (3, 5), .call (3, 1), .explicitImport 0, .call (4, 0), .explicitImport 1], intrinsics := false },
+      -- c19s0p29086/u3
       { id := 13,
-        toks := [.guardTest, .guardStore, .callInit 8, .callInit 1, .callInit 10, .loadSyms 4 [0, 1], .loadSyms 3 [0, 1], .use (.call (3, 1)), .ret],
-        inits := [8, 1, 10], loadGroups := [(4, [0, 1]), (3, [0, 1])],
-        initUses := [.call (3, 1)],
-        imp := none, fnUses := [.call (3, 1), .var (3, 2), .call (4, 0), .var (3, 3), .var (3, 4), .var (3, 5), .call (3, 0), .explicitImport 0, .call (4, 1), .explicitImport 1], intrinsics := false },
-      -- c19s0p22974
+        toks := [.guardTest, .guardStore, .callInit 8, .callInit 1, .callInit 10, .use (.call (3, 0)), .loadSyms 4 [1, 0], .loadSyms 3 [1, 0], .ret],
+        inits := [8, 1, 10], loadGroups := [(4, [1, 0]), (3, [1, 0])],
+        initUses := [.call (3, 0)],
+        imp := none, fnUses := [.call (3, 0), .var (3, 2), .call (4, 1), .var (3, 3), .var (3, 4), .var (3, 5), .call (3, 1), .explicitImport 0, .call (4, 0), .explicitImport 1], intrinsics := false },
+      -- c19s0p29086
       { id := 14,
-        toks := [.guardTest, .guardStore, .callInit 1, .callInit 10, .callInit 0, .callInit 3, .callInit 4, .callInit 2, .callInit 11, .callInit 12, .callInit 13, .callInit 5, .callInit 6, .callInit 7, .callInit 8, .callInit 9, .loadSyms 6 [0, 1, 2, 3, 4, 5, 6, 7, 8], .loadSyms 7 [0, 1, 2, 3, 4, 5, 6, 7], .loadSyms 5 [0, 1, 2, 3, 4, 5, 6, 7, 8], .loadSyms 4 [2, 3, 4, 5, 6, 7, 8, 9, 10, 11, 12, 0, 1, 13], .loadSyms 0 [0, 1], .loadSyms 1 [0, 1], .loadSyms 2 [0, 1], .loadSyms 3 [0, 1], .use (.call (0, 1)), .ret],
-        inits := [1, 10, 0, 3, 4, 2, 11, 12, 13, 5, 6, 7, 8, 9], loadGroups := [(6, [0, 1, 2, 3, 4, 5, 6, 7, 8]), (7, [0, 1, 2, 3, 4, 5, 6, 7]), (5, [0, 1, 2, 3, 4, 5, 6, 7, 8]), (4, [2, 3, 4, 5, 6, 7, 8, 9, 10, 11, 12, 0, 1, 13]), (0, [0, 1]), (1, [0, 1]), (2, [0, 1]), (3, [0, 1])],
-        initUses := [.call (0, 1)],
-        imp := none, fnUses := [.call (0, 1), .var (0, 2), .call (4, 0), .var (0, 3), .var (0, 4), .var (0, 5), .call (0, 0), .call (1, 1), .var (1, 2), .var (1, 3), .var (1, 4), .var (1, 5), .call (1, 0), .call (2, 1), .var (2, 2), .var (2, 3), .var (2, 4), .var (2, 5), .call (2, 0), .call (3, 1), .var (3, 2), .var (3, 3), .var (3, 4), .var (3, 5), .call (3, 0), .explicitImport 0, .call (4, 1), .explicitImport 1, .call (4, 5), .call (4, 6), .call (4, 7), .call (4, 8), .call (4, 9), .call (4, 10), .call (4, 11), .call (5, 7), .call (4, 12), .call (5, 8), .call (5, 0), .call (5, 2), .call (5, 4), .call (5, 1), .call (5, 6), .call (5, 5), .call (5, 3), .call (6, 5), .call (6, 1), .call (6, 2), .call (6, 0), .call (6, 6), .call (6, 3), .call (6, 7), .call (6, 4), .call (6, 8), .call (7, 3), .call (7, 0), .call (7, 1), .call (7, 7), .call (7, 2), .call (7, 4), .call (7, 5), .call (7, 6), .call (4, 2), .call (4, 13), .call (4, 3), .call (4, 4)], intrinsics := false }] }]
+        toks := [.guardTest, .guardStore, .callInit 1, .callInit 10, .callInit 0, .callInit 3, .callInit 4, .callInit 2, .callInit 11, .callInit 12, .callInit 13, .callInit 5, .callInit 6, .callInit 7, .callInit 8, .callInit 9, .use (.call (0, 0)), .loadSyms 6 [0, 1, 2, 3, 4, 5, 6, 7, 8], .loadSyms 7 [0, 1, 2, 3, 4, 5, 6, 7], .loadSyms 5 [0, 1, 2, 3, 4, 5, 6, 7, 8], .loadSyms 4 [2, 3, 4, 5, 6, 7, 8, 9, 10, 11, 12, 1, 0, 13], .loadSyms 0 [1, 0], .loadSyms 1 [1, 0], .loadSyms 2 [1, 0], .loadSyms 3 [1, 0], .ret],
+        inits := [1, 10, 0, 3, 4, 2, 11, 12, 13, 5, 6, 7, 8, 9], loadGroups := [(6, [0, 1, 2, 3, 4, 5, 6, 7, 8]), (7, [0, 1, 2, 3, 4, 5, 6, 7]), (5, [0, 1, 2, 3, 4, 5, 6, 7, 8]), (4, [2, 3, 4, 5, 6, 7, 8, 9, 10, 11, 12, 1, 0, 13]), (0, [1, 0]), (1, [1, 0]), (2, [1, 0]), (3, [1, 0])],
+        initUses := [.call (0, 0)],
+        imp := none, fnUses := [.call (0, 0), .var (0, 2), .call (4, 1), .var (0, 3), .var (0, 4), .var (0, 5), .call (0, 1), .call (1, 0), .var (1, 2), .var (1, 3), .var (1, 4), .var (1, 5), .call (1, 1), .call (2, 0), .var (2, 2), .var (2, 3), .var (2, 4), .var (2, 5), .call (2, 1), .call (3, 0), .var (3, 2), .var (3, 3), .var (3, 4), .var (3, 5), .call (3, 1), .explicitImport 0, .call (4, 0), .explicitImport 1, .call (4, 5), .call (4, 6), .call (4, 7), .call (4, 8), .call (4, 9), .call (4, 10), .call (4, 11), .call (5, 7), .call (4, 12), .call (5, 8), .call (5, 0), .call (5, 2), .call (5, 4), .call (5, 1), .call (5, 6), .call (5, 5), .call (5, 3), .call (6, 5), .call (6, 1), .call (6, 2), .call (6, 0), .call (6, 6), .call (6, 3), .call (6, 7), .call (6, 4), .call (6, 8), .call (7, 3), .call (7, 0), .call (7, 1), .call (7, 7), .call (7, 2), .call (7, 4), .call (7, 5), .call (7, 6), .call (4, 2), .call (4, 13), .call (4, 3), .call (4, 4)], intrinsics := false }] }]
 
 end LlgoVerif.Gen.C19
